@@ -463,7 +463,10 @@ func (n *eagrNode) settle(s *eagrSys, out *eagrOut) {
 		n.led.conflict = ""
 	}
 	if n.p.Round > s.cfg.maxRound || n.p.Period > s.cfg.maxPeriod {
+		// the node left the explored rounds/periods: it takes no further part
 		n.passive = true
+		n.loop = nil
+		n.ver = nil
 	}
 	if n.p.Period >= 1 {
 		s.stats.period1++
